@@ -2,6 +2,7 @@
 from valve_common import *
 from quake_common import quake_specs, quake_case
 from u2_common import u2_specs, u2_case
+from gs_common import gs_specs, gs_case
 
 ID = "C01"
 PROPS_FILE = "C01"
@@ -10,13 +11,17 @@ TRUSTED = [
     "Coq 8.16.1 kernel; theorems closed under the global context, under the stated Section hypothesis that the bzip2 oracle returns a value or an error (bzip2-rs is not verified)",
     "extraction (ExtrOcamlBasic), extract/driver.ml, Rust harness (catch_unwind, subprocess restart on abort, socket-operation cap as hang detector) + scripted transport hook",
     "third-party decoders (bzip2-rs, encoding_rs, std from_utf8) are exercised by the malformed stream, not proved panic-free",
-    "entry points modelled so far: valve::query (and through it every Valve game wrapper), quake one/two/three; the others are named in coverage.uncovered_entry_points",
+    "totality theorems: valve::query (and through it every Valve game wrapper), quake one/two/three, unreal2; gamespy, minecraft and the single-game protocols are modelled and run through the same malformed streams (model = implementation, no panic / abort / hang), without a totality theorem yet",
 ]
 RULE = ("malformed stream over Spec-generated valid scripts: truncation at every/ random offsets, extreme values (00, ff, 7f, 80, 16/32-bit extremes) written at random offsets, "
         "dropped / duplicated / swapped / empty / oversized (up to 64 KiB) datagrams, timeouts, deleted terminators, bit flips, random packets; all engines and gather settings, retries 0..2; "
         "non-trivial = the model's outcome is an error other than a receive timeout, or Ok after a mutation; distinct by case bytes")
-UNCOVERED = ["gamespy one/two/three", "minecraft java/bedrock/legacy/auto", "ffow", "savage2", "jc2m", "mindustry",
-             "valve master server", "generic dispatch", "eco (HTTP)"]
+UNCOVERED = ["valve master server (its malformed stream is part of C16)", "eco and minetest (HTTP)"]
+GAME_NAMES = ["ffow", "savage2", "jc2m", "mindustry", "theship", "battalion1944"]
+
+
+def game_case(game, port, ts, events):
+    return (bytes([50, game]) + port.to_bytes(2, "big") + enc_ts(ts) + enc_events(events) + b"\x00\x00\x00").hex()
 
 
 def gen_cases(tier, rng):
@@ -91,6 +96,54 @@ def gen_cases(tier, rng):
             kindb = r.choice([0, 1, 2, 2, 1, 3, 255])
             evs.append(bytes([0x80, 0, 0, 0, kindb]) + r.bytes(r.choice([0, 1, 4, 9, 30]), [0x00, 0x01, 0x05, 0x7f, 0x80, 0x81, 0x85, 0xff, 0x41, 0x1b, 0xd8, 0xdc]))
         cases.append({"id": "urand/%d" % i, "hex": u2_case(7778, r.choice([None, (2, 2)]), None, evs), "meta": {"stream": "unreal2-random", "kind": "random"}})
+    # GameSpy 1/2/3: mutations, every truncation of a few scripts, random packets
+    for ver in (1, 2, 3):
+        gsp = [g for g in gs_specs(ver, [rng.next() >> 1 for _ in range(80 if tier == "quick" else 2000)]) if g["fits"]]
+        for g in gsp:
+            for j in range(6 if tier == "quick" else 12):
+                kind, evs = mutate(g["events"], r)
+                ts = None if r.chance(1, 2) else {"retries": r.below(3)}
+                cases.append({"id": "gs%dmut/%d/%d" % (ver, g["seed"], j), "hex": gs_case(ver, 7777, r.below(2) if ver != 2 else 0, ts, evs),
+                              "meta": {"stream": "gamespy%d-mut:%s" % (ver, kind.split("@")[0]), "kind": kind}})
+        for g in gsp[: (4 if tier == "quick" else 80)]:
+            for w in range(len(g["events"])):
+                for ti, evs in enumerate(all_truncations(g["events"], w, 1 if len(g["events"][w]) <= 96 else 9)):
+                    cases.append({"id": "gs%dtrunc/%d/%d/%d" % (ver, g["seed"], w, ti), "hex": gs_case(ver, 7777, 0, None, evs),
+                                  "meta": {"stream": "gamespy%d-truncations" % ver, "kind": "truncate"}})
+        for i in range(150 if tier == "quick" else 5000):
+            alpha = [0x00, 0x01, 0x02, 0x03, 0x5c, 0x5f, 0x2e, 0x30, 0x39, 0x41, 0x70, 0x74, 0x80, 0xff]
+            head = [b"\\", b"\x00\x00\x00\x00\x01", b"\x00\x00\x00\x00\x01splitnum\x00"][ver - 1]
+            evs = [(head if r.chance(3, 4) else b"") + r.bytes(r.choice([0, 1, 3, 9, 40]), alpha) for _ in range(1 + r.below(3))]
+            if ver == 3:
+                evs = [b"\x09\x00\x00\x00\x01" + r.bytes(r.below(13), [0x30, 0x31, 0x2d, 0x39, 0x00, 0x41])] + evs
+            cases.append({"id": "gs%drand/%d" % (ver, i), "hex": gs_case(ver, 7777, r.below(2) if ver != 2 else 0, None, evs),
+                          "meta": {"stream": "gamespy%d-random" % ver, "kind": "random"}})
+    # single-game protocols: mutations and every truncation of a few replies
+    for game in range(6):
+        seeds_g = [rng.next() >> 1 for _ in range(60 if tier == "quick" else 1500)]
+        outs = run_model([(bytes([150, game]) + x.to_bytes(8, "big")).hex() for x in seeds_g])
+        scripts_g = []
+        for x, o in zip(seeds_g, outs):
+            parts = o.split("|")
+            evs0 = [bytes.fromhex(h) for h in parts[0].split(",")] if parts[0] else []
+            if evs0 and max(len(e) for e in evs0) <= 1400:
+                scripts_g.append((x, evs0))
+        for x, evs0 in scripts_g:
+            for j in range(6 if tier == "quick" else 12):
+                kind, evs = mutate(evs0, r)
+                ts = None if r.chance(1, 2) else {"retries": r.below(3)}
+                cases.append({"id": "%smut/%d/%d" % (GAME_NAMES[game], x, j), "hex": game_case(game, 5000, ts, evs),
+                              "meta": {"stream": "%s-mut:%s" % (GAME_NAMES[game], kind.split("@")[0]), "kind": kind}})
+        for x, evs0 in scripts_g[: (3 if tier == "quick" else 60)]:
+            for w in range(len(evs0)):
+                for ti, evs in enumerate(all_truncations(evs0, w, 1 if len(evs0[w]) <= 96 else 9)):
+                    cases.append({"id": "%strunc/%d/%d/%d" % (GAME_NAMES[game], x, w, ti), "hex": game_case(game, 5000, None, evs),
+                                  "meta": {"stream": GAME_NAMES[game] + "-truncations", "kind": "truncate"}})
+    # Minecraft (all five formats and the auto query): the malformed stream of C03
+    import C03
+    for c in C03.gen_cases(tier, rng.fork("mc")):
+        if c["meta"]["stream"] == "malformed":
+            cases.append({"id": "mc/" + c["id"], "hex": c["hex"], "meta": {"stream": "minecraft-malformed", "kind": "mutated"}})
     # random packets over the boundary alphabet
     for i in range(300 if tier == "quick" else 20000):
         n = 1 + r.below(3)
@@ -128,4 +181,8 @@ def nontrivial(case, model):
 
 
 def extra_runs(tier, rng, ctx):
-    return [], {"uncovered_entry_points": UNCOVERED, "covered_entry_points": ["valve::query", "quake::one::query", "quake::two::query", "quake::three::query", "unreal2::query"]}
+    return [], {"uncovered_entry_points": UNCOVERED,
+                "covered_entry_points_with_theorem": ["valve::query", "quake::one::query", "quake::two::query", "quake::three::query", "unreal2::query"],
+                "covered_entry_points_by_correspondence_only": ["gamespy one/two/three query and query_vars", "minecraft java / bedrock / legacy / auto",
+                                                               "ffow", "savage2", "jc2m", "mindustry", "theship", "battalion1944",
+                                                               "generic dispatch (C14 runs every game through it)"]}
